@@ -51,6 +51,16 @@ def showOuts : List Out → String
   | .done :: _ => "done"
   | .panic :: _ => "panic"
 
+/-- `codec` operation (shipped codecs): every frame handed to the codec is shown with its payload,
+whether the codec decodes or rejects it — the stream goes on in both cases -/
+def showOutsAll : List Out → String
+  | [] => "fuel"
+  | [.item b] => s!"item:{hexOf b} fuel"
+  | .item b :: rest => s!"item:{hexOf b} " ++ showOutsAll rest
+  | .err :: _ => "err"
+  | .done :: _ => "done"
+  | .panic :: _ => "panic"
+
 def listOf (s : String) : List String := if s = "." then [] else s.splitOn ","
 
 partial def chunks16 (data : Bytes) : List Bytes :=
@@ -79,12 +89,15 @@ def parseI32 (s : String) : Option Bytes :=
   if s.startsWith "-" then ((s.drop 1).toString.toNat?).map fun n => leBytes 4 (2 ^ 32 - n)
   else (s.toNat?).map (leBytes 4)
 
-def parseMsg (s : String) : Option (Bytes × Bytes × Bytes) :=
-  match s.splitOn ":" with
-  | [l, t, d] =>
+/-- `level:type:hex` or `level:type:hex:R` (the payload encoder of this message refuses) -/
+def parseMsg (s : String) : Option (Bool × Bytes × Bytes × Bytes) :=
+  let mk (rf : Bool) (l t d : String) : Option (Bool × Bytes × Bytes × Bytes) :=
     match parseI32 l, parseI32 t, parseHex d with
-    | some l, some t, some d => some (l, t, d)
+    | some l, some t, some d => some (rf, l, t, d)
     | _, _, _ => none
+  match s.splitOn ":" with
+  | [l, t, d] => mk false l t d
+  | [l, t, d, "R"] => mk true l t d
   | _ => none
 
 def showDecoded : Cmsg.Decoded → String
@@ -101,13 +114,13 @@ def cmsgOp (w : List String) : String :=
       match Cmsg.Builder.new cap with
       | .panic => "panic"
       | .ok b =>
-        let (b', rs) := b.pushAll ms
+        let (b', rs) := b.pushAllR ms
         let bytes := b'.finish
         let items := match Cmsg.iter bytes with
           | .panic => []
           | .msgs l => l.map fun (off, h) =>
               s!"{showI32 h.level}:{showI32 h.ty}:{h.len}:{showDecoded (Cmsg.decodeData bytes off (h.len - 16))}"
-        let rs := rs.map fun | .ok => "ok" | .small => "small"
+        let rs := rs.map fun | .ok => "ok" | .small => "small" | .refused => "refused"
         s!"cm {joinOr "," rs} | {hexOf bytes} | {joinOr ";" items}"
     | _, _ => "bad-op"
   | ["iter", h] =>
@@ -169,6 +182,11 @@ def step (_ : Unit) (line : String) : Unit × String :=
       match parseFramer f, allSome ((listOf frags).map parseFrag) with
       | some f, some frags =>
         showOuts (runAll f.extract (fuelFor RState.init frags + 1) RState.init frags)
+      | _, _ => "bad-op"
+    | ["codec", _codec, f, frags] =>
+      match parseFramer f, allSome ((listOf frags).map parseFrag) with
+      | some f, some frags =>
+        showOutsAll (runAll f.extract (fuelFor RState.init frags + 1) RState.init frags)
       | _, _ => "bad-op"
     | ["sink", f, script] =>
       match parseFramer f with
